@@ -682,6 +682,7 @@ pub fn extend(props: &mut [Property]) {
             }
             "C08" => p.subs.push(Box::new(PropSub { name: "C08/copies", quick: 40_000, thorough: 800_000, shards_quick: 8, shards_thorough: 16, strat: matchers::strat, check: matchers::check, must_reach: &[], watch: true })),
             "C10" => p.subs.push(Box::new(PropSub { name: "C10/copies", quick: 40_000, thorough: 800_000, shards_quick: 8, shards_thorough: 16, strat: matchers::strat, check: matchers::check, must_reach: &["pattern longer than one u8 block"], watch: true })),
+            "C13" => p.subs.push(Box::new(PropSub { name: "C13/raw-bytes", quick: 60_000, thorough: 1_200_000, shards_quick: 8, shards_thorough: 16, strat: crate::props::c13::rawbytes::strat, check: crate::props::c13::rawbytes::check, must_reach: &["BED", "GFF3", "GFF2", "GTF2", "a record read as Ok", "a malformed data line", "Ok and malformed lines in one file"], watch: true })),
             "C17" => p.subs.push(Box::new(PropSub { name: "C17/copies", quick: 20_000, thorough: 400_000, shards_quick: 8, shards_thorough: 16, strat: c17::strat, check: c17::check, must_reach: &["bit vector spans several superblocks", "wavelet matrix compared"], watch: true })),
             "C18" => p.subs.push(Box::new(PropSub { name: "C18/copies", quick: 40_000, thorough: 800_000, shards_quick: 8, shards_thorough: 16, strat: c18::strat, check: c18::check, must_reach: &["original changed after the copies were taken", "SmallInts holds big values"], watch: true })),
             "C19" => p.subs.push(Box::new(PropSub { name: "C19/copies", quick: 40_000, thorough: 800_000, shards_quick: 8, shards_thorough: 16, strat: matchers::strat, check: matchers::check, must_reach: &[], watch: true })),
